@@ -216,8 +216,12 @@ CHECKS = {
                 "Execution has an FE budget and no time budget, nested "
                 "executions are seeded on every path of their loop round, "
                 "the hardness seed memo is keyed by what its seeds derive "
-                "from, and the packing log parser's key equals the key the "
-                "space writes (constants folded from moptipy's source).",
+                "from, the packing log parser's key equals the key the "
+                "space writes (constants folded from moptipy's source), and "
+                "a result record parsed from a log is assembled from the "
+                "parsed packing, its instance and each objective's own "
+                "evaluate / lower_bound / upper_bound under that "
+                "objective's name.",
         "design_ref": "DESIGN.md section 4, C12",
         "note": "Does NOT decide run behaviour: termination within budget, "
                 "feasibility of final solutions, logged value = "
